@@ -1,4 +1,5 @@
 """C05 - export followed by load reproduces the structure on every channel."""
+import copy
 import io
 import os
 import struct
@@ -95,10 +96,16 @@ class Ad:
         ctx = self.ctx
         out = {"bytes": ctx.call(self.nx, bytes, obj)}
         if file_ok:
+            # the target of an export may EXIST already (a save file written again, possibly by a larger structure before): what is
+            # there must be replaced, not partly overwritten
             p = self.path()
+            with open(p, "wb") as fh:
+                fh.write(b"\xa5" * (len(out["bytes"]) + 41))
             ctx.call(self.nx, obj.export, p)
             out["path"] = open(p, "rb").read()
             p = self.path()
+            with open(p, "wb") as fh:
+                fh.write(b"\x5a" * max(1, len(out["bytes"]) // 2))
             ctx.call(self.nx, obj.export, Path(p))
             out["Path"] = open(p, "rb").read()
             p = self.path()
@@ -166,6 +173,9 @@ def _bloom_like(case, ctx, d, counting):
                ("filepath_with_params", lambda: K(o.estimated_elements + 7, 0.2, filepath=ad.write(raw), hash_function=hf))]
     if not counting:
         loaders.append(("BloomFilterOnDisk", lambda: BloomFilterOnDisk(ad.write(raw), hash_function=hf)))
+    if not getattr(o, "is_on_disk", False):
+        # not a save/load channel of the format, but the same promise in Python's own terms: a deep copy is the structure again
+        loaders.append(("deepcopy", lambda: copy.deepcopy(o)))
     copies = []
     for name, mk in loaders:
         g = ctx.call(ad.nx, mk)
@@ -233,6 +243,7 @@ def _expanding(case, ctx, d):
                    ("frombytes_bytearray", lambda: K.frombytes(bytearray(raw), hf)),
                    ("frombytes_memoryview", lambda: K.frombytes(memoryview(raw), hf)),
                    ("filepath_with_params", lambda: K(est_elements=o.estimated_elements + 5, false_positive_rate=0.2, filepath=ad.write(raw), hash_function=hf))]
+    loaders.append(("deepcopy", lambda: copy.deepcopy(o)))
     copies = []
     for name, mk in loaders:
         g = ctx.call(ad.nx, mk)
@@ -290,6 +301,7 @@ def _cms(case, ctx, d):
                ("frombytes_bytearray", lambda: K.frombytes(bytearray(raw), hash_function=hf, **extra)),
                ("frombytes_memoryview", lambda: K.frombytes(memoryview(raw), hash_function=hf, **extra)),
                ("filepath_with_params", lambda: K(width=d.w + 2, depth=d.d + 1, filepath=ad.write(raw), hash_function=hf, **extra))]
+    loaders.append(("deepcopy", lambda: copy.deepcopy(o)))
     copies = []
     for name, mk in loaders:
         g = ctx.call(ad.nx, mk)
@@ -393,6 +405,7 @@ def _cuckoo(case, ctx, d):
     if counting:  # the plain CuckooFilter loader accepts the `bytes` type only (observed on the unchanged tree); not generated for it
         loaders.append(("frombytes_bytearray", lambda: resupply(K.frombytes(bytearray(raw), er, hf))))
         loaders.append(("frombytes_memoryview", lambda: resupply(K.frombytes(memoryview(raw), er, hf))))
+    loaders.append(("deepcopy", lambda: copy.deepcopy(o)))
     copies = []
     for name, mk in loaders:
         g = ctx.call(ad.nx, mk)
